@@ -24,13 +24,13 @@ for d in sorted(glob.glob('/verif/seeded/*/')):
         res.append('%s: %s %s' % (p, what, ob))
     rows.append((name, j.get('property'), ', '.join(j.get('files_changed', []))[:60], (j.get('what_it_breaks') or '')[:160].replace('|', '/').replace('\n', ' '),
                  (j.get('needs_to_manifest') or '')[:160].replace('|', '/').replace('\n', ' '), 'yes' if v.get('confirmed') else 'NO',
-                 {True: 'yes', False: 'no', None: '?'}[(j.get('first_shot') or {}).get('detected')], 'yes' if v.get('detected') else 'no', '; '.join(res)))
+                 {True: 'yes', False: 'no', None: '?'}[(j.get('first_shot') or {}).get('detected')], ('yes' if v.get('detected') else ('n/a (neutralised by a later fix)' if j.get('neutralised') else 'no')), '; '.join(res)))
 with open('/verif/seeded/RESULTS.md', 'w') as f:
     f.write('# Seeded property-breaking changes and what the checks said\n\n')
     f.write('Each row: a change written by a fresh sub-agent from the property text alone; confirmed = suite passes with it, its demo fails with it and passes without it (vx/seed.py).\n\n')
-    n = len(rows); det = sum(1 for r in rows if r[7] == 'yes'); fs = sum(1 for r in rows if r[6] == 'yes')
+    n = len(rows); det = sum(1 for r in rows if r[7] == 'yes'); neut = sum(1 for r in rows if r[7].startswith('n/a')); fs = sum(1 for r in rows if r[6] == 'yes')
     f.write('%d seeds. FIRST SHOT (the checks as they stood when the seed arrived): %d reported as VIOLATION, %d not (silent pass or UNDECIDED).\n' % (n, fs, n - fs))
-    f.write('NOW (after the checks were extended because of the misses; see DESIGN.md section 10): %d reported as VIOLATION, %d not.\n\n' % (det, n - det))
+    f.write('NOW (after the checks were extended because of the misses; see DESIGN.md section 10): %d reported as VIOLATION, %d not, %d no longer a violation because a later fix: commit removed what they relied on.\n\n' % (det, n - det - neut, neut))
     f.write('| seed | property | files | what it breaks | needs | confirmed | detected first shot | detected now | check results (now) |\n|---|---|---|---|---|---|---|---|---|\n')
     for r in rows:
         f.write('| ' + ' | '.join(r) + ' |\n')
